@@ -11,7 +11,7 @@ COQ_FALLBACK = None
 COQ_IMPORTS = ""
 SHARD = 40
 RULE = ("ArrayTriangles: random index triples over random dyadic (k/4) vertices of either sign (arbitrary, also degenerate and "
-        "repeated corners, duplicate vertex rows), connected meshes cut from a skewed lattice, and the output of "
+        "repeated corners, duplicate vertex rows; a malformed stream with out-of-range index rows), connected meshes cut from a skewed lattice, and the output of "
         "ArrayTriangles.for_limits_and_scale; CoordinateArrayTriangles: random integer coordinates in [-5,5]^2 of both parities "
         "(duplicates included), side in {1/4,1/2,1,3/2,2,3}, offsets k/4, both flip states, the output of "
         "CoordinateArrayTriangles.for_limits_and_scale, and objects reached through up_sample()/neighborhood() chains of the real "
@@ -122,7 +122,7 @@ def gen_shape(rng):
 
 def gen_inputs(tier, rng):
     big = tier == "thorough"
-    n = 480 if big else 60
+    n = 800 if big else 60
     for i in range(n):
         A = gen_array(rng)
         for op in ("a_tris", "a_up", "a_nbr"):
@@ -147,6 +147,12 @@ def gen_inputs(tier, rng):
         yield dict(L, op=rng.choice(["al_up", "al_nbr", "al_for", "al_contain"]), seed=rng.randrange(10 ** 9), shape=gen_shape(rng))
     for i in range(30 if big else 8):
         yield {"op": "shape_init", "nv": i % 5, "seed": rng.randrange(10 ** 9)}
+    # malformed stream: an index row that addresses no vertex (numpy raises IndexError)
+    for i in range(40 if big else 10):
+        A = gen_array(rng)
+        if i % 3:
+            r = rng.randrange(len(A["idx"])); A["idx"][r][rng.randrange(3)] = len(A["verts"]) + rng.randint(0, 2)
+        yield dict(A, op="a_checked")
 
 # ----------------------------------------------------------------------------- Coq printing
 def cpt(p): return ctup([cq(p[0]), cq(p[1])])
@@ -371,6 +377,12 @@ def run_case(inp):
     from autoarray.structures.triangles.coordinate_array import CoordinateArrayTriangles
     op = inp["op"]
     h = hq()
+    if op == "a_checked":
+        A, idx, verts = mk_array(inp)
+        try: out = ("ok", fr_tris(A.triangles))
+        except Exception as e: out = ("raise", exn_name(e))
+        return {"coq": f"(KATrisRes {catri(idx, verts)} {cres(out, ctris)})", "out": str(out)[:300], "py_ok": None,
+                "nontrivial": len(idx) >= 2, "kind": op + (":raise" if out[0] == "raise" else "")}
     if op.startswith("a_") and op != "a_limits":
         A, idx, verts = mk_array(inp)
         base = {"kind": op, "nontrivial": len(idx) >= 2, "py_ok": None}
